@@ -63,12 +63,17 @@ func vfC05GenWorld(r *vfRand) *vfC05World {
 		if r.Chance(70) {
 			repo.RawConfig = map[string]string{}
 			for _, f := range []string{"public", "fork", "archived"} {
-				switch r.Intn(3) {
-				case 0:
+				switch r.Intn(8) {
+				case 0, 1, 2:
 					repo.RawConfig[f] = "1"
-				case 1:
+				case 3, 4:
 					repo.RawConfig[f] = "0"
+				case 5:
+					repo.RawConfig[f] = r.Pick([]string{"", "true", "11", "2"}) // anything but "1" counts as no
 				}
+			}
+			if r.Chance(20) {
+				repo.RawConfig[r.Pick([]string{"priority", "Public", "forks"})] = "1" // other keys are ignored
 			}
 		}
 		if r.Chance(60) {
@@ -430,11 +435,23 @@ func vfC05Eval(w *vfC05World, q query.Q, d *vfC05Doc) bool {
 			return ok && s.Value.MatchString(v)
 		})
 	case query.RawConfig:
-		var mask uint8 // a document without repository (empty shard) has mask 0
-		if repo != nil {
-			mask = encodeRawConfig(repo.RawConfig)
+		// independent of encodeRawConfig: every Only* flag needs the value "1" for its field, every No*/Private flag
+		// anything else (incl. absence); bits 6 and 7 of the truncated mask can never be satisfied.
+		// A document without repository (empty shard) has mask 0.
+		m := uint8(s)
+		if repo == nil {
+			return m == 0
 		}
-		return uint8(s)&mask == uint8(s)
+		for i, f := range []string{"public", "fork", "archived"} {
+			one := repo.RawConfig[f] == "1"
+			if m>>(2*i)&1 != 0 && !one {
+				return false
+			}
+			if m>>(2*i)&2 != 0 && one {
+				return false
+			}
+		}
+		return m>>6 == 0
 	case *query.And:
 		for _, c := range s.Children {
 			if !vfC05Eval(w, c, d) {
@@ -624,7 +641,15 @@ func vfC05CoqWorld(w *vfC05World, q query.Q) (repos, langs, retab string) {
 			ml = cList(meta)
 		}
 		subjects[r.Name] = true
-		rs = append(rs, cTuple(cBool(r.Tombstone), cN(uint64(r.ID)), cStr(r.Name), cN(uint64(encodeRawConfig(r.RawConfig))), ml))
+		var rc []string
+		for _, k := range vfSortedKeys(r.RawConfig) {
+			rc = append(rc, cPair(cStr(k), cStr(r.RawConfig[k])))
+		}
+		rcl := "[]"
+		if len(rc) > 0 {
+			rcl = cList(rc)
+		}
+		rs = append(rs, cTuple(cBool(r.Tombstone), cN(uint64(r.ID)), cStr(r.Name), rcl, ml))
 	}
 	repos = "[]"
 	if len(rs) > 0 {
